@@ -9,7 +9,7 @@ HOOK_COMMITS = ["c5cf169", "2895036"]
 
 # property -> (technique, level text, level note, design ref)
 T = {
- "C01": ("differential runtime monitor: library vs independent spec-level reference model over generated inputs, several build variants + ASan/UBSan/MSan",
+ "C01": ("differential runtime monitor: library vs independent spec-level reference model over generated inputs, several build variants + ASan/UBSan/MSan; half of the calls on a relocated PROT_READ copy of the key schedule",
          "Exploration: 10^5..10^7 generated (variant, key, block, direction) cases per run incl. every S-box input at every cell, walking-one tweakeys and random pairs, on the shipped build, the 32-bit and byte-order-neutral source paths and sanitizer builds; decides only the inputs executed.",
          "Trusted: the reference model (self-tested on the six published vectors each run); alternative word-size paths run on the 64-bit LE host through the switch hook.", "3/C01"),
  "C02": ("differential runtime monitor: library vs independent MANTIS model through all four entry points",
@@ -21,7 +21,7 @@ T = {
  "C04": ("history monitor: stateful tweak-change histories vs a stateless from-scratch reference, also through the CTR tweak API on every back end",
          "Exploration over histories of tweak changes (lengths 1..block, NULL, chains of 1100 changes) on both tweakable schedules and through CTR objects.",
          "Trusted: reference model; history dependence is visible because the model has no history.", "3/C04"),
- "C05": ("history monitor: generated CTR call histories on every back end vs independent reference CTR stream, guard-page/ASan buffers",
+ "C05": ("history monitor: generated CTR call histories on every back end vs independent reference CTR stream (short histories, 70 000-call marathon objects with 64 KiB..1 MiB requests, thorough: >4 GiB calls), guard-page/ASan buffers",
          "Exploration: structured (every total length x cut pattern x counter kind) and random histories; carries through every byte, wrap-around, short/NULL counters, default counter, zero-length calls; every back end pinned and confirmed.",
          "Trusted: reference models; only segments inside the property's scope are judged.", "3/C05"),
  "C06": ("cross-back-end transcript-equality monitor over whole-API histories (CTR and parallel ECB)",
@@ -45,13 +45,13 @@ T = {
  "C12": ("configuration-matrix differential: the working tree built in many switch/compiler/optimisation combinations, transcripts compared with the shipped build and the models",
          "Exploration over build configurations (12 quick / 128 thorough) x a fixed seeded workload covering C01-C07 operations.",
          "No real 32-bit/big-endian target: alternative source paths run on the host via the switch hook.", "3/C12"),
- "C13": ("CPUID trap monitor (arch_prctl ARCH_SET_CPUID): logs every CPUID (leaf, sub-leaf register) during init, serves emulated CPU models, injects register/stack garbage; selected back end read from the handle",
+ "C13": ("CPUID trap monitor (arch_prctl ARCH_SET_CPUID): logs every CPUID (leaf, sub-leaf register) during init, serves emulated CPU models, injects register/stack garbage; XGETBV emulated and VEX/EVEX instructions watched by single-stepping (EFLAGS.TF); selected back end read from the handle",
          "Exploration over calling contexts (register and stack garbage) x emulated CPU models x all six init functions, repeated; behavioural check of parallel_size.",
          "Emulated models on one physical CPU; XGETBV cannot be trapped.", "3/C13"),
  "C14": ("twin-history monitor: history with invalid calls vs the same history without them on the same back end; guard buffers, crash containment",
          "Exploration over histories x invalid-argument classes x object states for CTR, parallel-ECB and key-schedule functions.",
          "'Unchanged' is the property's own definition: identical later results.", "3/C14"),
- "C15": ("allocator event-log monitor (link-time --wrap) with conservation/exactly-once checker, PROT_NONE quarantine of freed blocks, ASan",
+ "C15": ("allocator event-log monitor (link-time --wrap) with conservation/exactly-once checker, PROT_NONE quarantine of freed blocks, inert-handle cleanup on a PROT_READ copy, ASan",
          "Exploration over life-cycle histories on several objects of each kind and back end.",
          "Allocator wrapped at link time; only calls made while a library call is in progress are attributed.", "3/C15"),
  "C16": ("fault injection: N-th allocation request failed through the allocator monitor, enumerated over init functions x back ends x prior handle contents, then a battery of later calls",
@@ -60,7 +60,7 @@ T = {
  "C17": ("monitor at free(): every block the library releases is scanned for non-zero bytes before release, on -O3 gcc and clang builds",
          "Exploration over histories ending in cleanup for every object kind and back end with all fields non-zero beforehand (non-vacuity measured).",
          "Block sizes known from the matching allocation event.", "3/C17"),
- "C18": ("ThreadSanitizer (gcc and clang) and helgrind over 16-thread workloads + sequential-equivalence oracle, positive control race",
+ "C18": ("ThreadSanitizer (gcc and clang) and helgrind over 16-thread workloads (incl. first-ever calls made concurrently and 64 KiB+ requests) + sequential-equivalence oracle + mprotect(PROT_READ) of shared parallel-ECB state during read-only calls, positive control race",
          "Exploration over schedules: distinct objects, shared read-only schedules/parallel objects, concurrent init/cleanup storms; overlap measured.",
          "Interleavings are sampled; happens-before detection needs an overlapping schedule, which the workloads provoke.", "3/C18"),
  "C19": ("differential monitor: Arduino C++ classes compiled for the host vs the C library and the models over generated op sequences",
